@@ -25,10 +25,66 @@
       analysis shared with C05 K2/K3); for the collection operators the same
       discipline is C13 K2 and C14 K2/K4.
 """
-from .core import callee_of, callee_path, strip_refs, strip_payload, show_expr
+from .core import callee_of, callee_path, strip_refs, strip_payload, show_expr, expr_mentions
 from .engine import Inconclusive
 from .roles import Roles
 from . import prov as P
+
+
+def operator_receives_operand_list(ctx, facts, roles, t, cfg, K):
+    """The operation evaluator of table `t` runs its operator at exactly one site, on the operand list itself
+    (shared by C04 K3, C03 K7 and C16 K3: {op: x} means {op: [x]} also at evaluation time)."""
+    ev = facts.body(t.operation_impl[1])
+    unit = roles.unit(ev.key)
+    # result: the operator's own result wrapped as a new value — `execute(..).map(Evaluated::New)` or
+    # `Ok(Evaluated::New(execute(..)?))` — and no error of the evaluator's own making
+    def is_execute(x):
+        x = strip_refs(x)
+        if not (x[0] == "call" and x[1] and x[1]["local"]):
+            return False
+        xb = facts.body(x[1]["key"])
+        return xb is not None and any(callee_of(tt) is None for _, tt in xb.calls())
+
+    r = strip_refs(ev.trace(0))
+    cands = [strip_refs(x) for x in r[2]] if r[0] == "phi" else [r]
+    good = 0
+    bad = []
+    ctor_path = "%s::%s" % (roles.evaluated_adt, roles.owned_variant)
+    for c in cands:
+        if c[0] == "call" and c[1] and "from_residual" in c[1]["path"]:
+            continue   # `?`: an error of the operator or of an operand's evaluation, handed on
+        if c[0] == "call" and c[1] and c[1]["path"] == "std::result::Result::<T, E>::map":
+            f = c[2][1]
+            ctor = f[0] == "const" and "fn" in f[1] and f[1]["fn"]["path"].replace("::<'_>", "") == ctor_path
+            if ctor and is_execute(c[2][0]):
+                good += 1
+                continue
+        if c[0] == "agg" and c[1].get("variant") == "Ok" and c[2]:
+            v = strip_refs(c[2][0])
+            if v[0] == "agg" and v[1].get("variant") == roles.owned_variant and v[2] and is_execute(strip_payload(v[2][0])):
+                good += 1
+                continue
+        bad.append(show_expr(c)[:100])
+    ctx.check(good >= 1 and not bad, K + ".result", "%s operation returns the operator's result as a new value, and nothing else (%s)" % (t.role, cfg),
+              "the operation evaluator can also return %s (expected only execute(..) wrapped as a new value, or its error)" % (bad or show_expr(r)[:120]), where=ev.where(), fn=ev.key, nontrivial=True)
+    execs = []
+    for b in unit:
+        for bi, tm in b.calls():
+            c = callee_of(tm)
+            if c and c["local"] and c["key"] not in roles.evaluators and c["key"] not in roles.sinks:
+                xb = facts.body(c["key"])
+                if xb is not None and any(callee_of(tt) is None for _, tt in xb.calls()):
+                    execs.append((b, bi, tm))
+    ctx.check(len(execs) == 1, K + ".execute-once", "%s operation runs its operator at exactly one site (%s)" % (t.role, cfg),
+              "the %s operation evaluator calls the operator at %d sites: some evaluations hand it another operand list than the one that was parsed and counted" % (t.role, len(execs)), where=ev.where(), fn=ev.key, nontrivial=True)
+    for (b, bi, tm) in execs:
+        vec_args = [a for a in tm["args"] if a["k"] in ("Copy", "Move") and "std::vec::Vec<" in b.local_ty(a["place"]["local"])]
+        for a in vec_args:
+            e = strip_refs(b.xtrace(a))
+            looks_inside = expr_mentions(e, lambda y: y[0] == "downcast" and y[2] in ("Array", "Object", "String", "Number", "Bool", "Null"))
+            ctx.check(not looks_inside, K + ".operands-as-evaluated", "the operator receives the operand list itself (%s, %s)" % (t.role, cfg),
+                      "the operand list handed to the operator is taken from inside an operand's value (%s): {op: x} no longer means {op: [x]}" % show_expr(e)[:120], where=b.where(bi), fn=b.key, nontrivial=True)
+
 
 
 def run(ctx):
@@ -94,21 +150,7 @@ def run(ctx):
                     recv = strip_refs(cb.trace(tm["args"][0]))
                     ctx.check(cb.kind == "closure" and recv == ("arg", 2), "K3.per-argument", "the evaluated thing is the iteration element (%s, %s)" % (t.role, cfg),
                               "the single evaluator call is not applied to the per-argument closure parameter", where=cb.where(cbi), fn=cb.key)
-            # result: map(execute(...), Evaluated::New)
-            r = strip_refs(ev.trace(0))
-            cands = [strip_refs(x) for x in r[2]] if r[0] == "phi" else [r]
-            good = False
-            for c in cands:
-                if c[0] == "call" and c[1] and c[1]["path"] == "std::result::Result::<T, E>::map":
-                    src = strip_refs(c[2][0])
-                    f = c[2][1]
-                    ctor = f[0] == "const" and "fn" in f[1] and f[1]["fn"]["path"].replace("::<'_>", "") == "%s::%s" % (roles.evaluated_adt, roles.owned_variant)
-                    if src[0] == "call" and src[1] and src[1]["local"] and ctor:
-                        xb = facts.body(src[1]["key"])
-                        indirect = xb is not None and any(callee_of(tt) is None for _, tt in xb.calls())
-                        good = good or indirect
-            ctx.check(good, "K3.result", "%s operation returns the operator's result as a new value (%s)" % (t.role, cfg),
-                      "the operation evaluator's result is %s (expected execute(..).map(Evaluated::New))" % show_expr(r), where=ev.where(), fn=ev.key, nontrivial=True)
+            operator_receives_operand_list(ctx, facts, roles, t, cfg, "K3")
 
         # ---- K4 at most once per use: the lazy operators over an operand list
         from . import table as T
